@@ -14,15 +14,18 @@ lattice models and the noise model of C07 behind it (`Model/GuiRoutesLib.lean`).
   `select_code_3d`, `select_code_3d_without_Lz`, `select_code_unknown`, `deformation_none_rule`,
   `noise_deformation_rule`, `decoder_kwargs_rule`.
 * `decode_reads_only`, `new_errors_reads_only`: the answer depends on the listed request fields
-  only; `decode_ignores_channel_update` (the DEFECT: the front end sends the "Channel update (BP)"
-  box as `channel_update`, the answer cannot depend on it).
+  only.  The repaired defect (fix PENDING): the front end sends the "Channel update (BP)" box as
+  `channel_update`; the old glue (`oldSendCorrection`) could not depend on it
+  (`old_decode_ignores_channel_update`, `old_channel_update_not_forwarded`), the repaired one
+  forwards its truth value to 'BP-OSD' (`decoder_kwargs_rule`, `channel_update_reaches_bposd`) and
+  is the old route for every other decoder (`repaired_agrees_off_bposd`).
 * regenerated tables (`Generated/GuiRoutes.lean`: `noise_directions`, constructor signatures of the
   menu decoders, request bodies and decoder options of `main.js`), by `decide`:
   `menu_decode_selection` (every menu code × deformation × direction × decoder: the selection
   succeeds with exactly the named objects), `directions_sum_to_one`, `front_end_fields_served`,
-  `options_forwarded` (`max_bp_iter`, `alpha`, `beta` reach exactly the decoders whose constructor
-  has them; every keyword passed is accepted), `channel_update_not_forwarded` (the defect, on the
-  current source).
+  `options_forwarded` (EVERY option control of the decoder folder — `max_bp_iter`, `channel_update`,
+  `alpha`, `beta` — reaches exactly the decoders whose constructor has a parameter of that name;
+  every keyword passed is accepted), `decoder_options_read`.
 * `new_errors_is_model_sample`: with the lattice and noise models as the library, `/new-errors`
   returns `generate` of `probability_distribution` of the requested direction, rate and noise
   deformation on the requested class and size (C07 says what that distribution is), all `2n` entries.
@@ -324,13 +327,16 @@ theorem noise_deformation_rule (v : JV) :
       simp [hb]
     | _ => rfl
 
-/-- THE KEYWORD ARGUMENTS PER DECODER: 'BP-OSD' gets `max_bp_iter` (as sent) and `osd_order = 0`;
-    'MBP' gets `max_bp_iter`, `alpha`, `beta` (as sent); every other decoder gets none — and no
-    decoder gets anything else -/
-theorem decoder_kwargs_rule (m a b : JV) :
-    decoderKwargs (.str "BP-OSD") m a b = [("max_bp_iter", m), ("osd_order", JV.i 0)] ∧
-    decoderKwargs (.str "MBP") m a b = [("max_bp_iter", m), ("alpha", a), ("beta", b)] ∧
-    (∀ v, (∀ s, v = .str s → s ≠ "BP-OSD" ∧ s ≠ "MBP") → decoderKwargs v m a b = []) := by
+/-- THE KEYWORD ARGUMENTS PER DECODER: 'BP-OSD' gets `max_bp_iter` (as sent), `osd_order = 0` and
+    `channel_update` = the truth value of the request's field (`False` when absent); 'MBP' gets
+    `max_bp_iter`, `alpha`, `beta` (as sent); every other decoder gets none — and no decoder gets
+    anything else -/
+theorem decoder_kwargs_rule (m a b : JV) (cu : Option JV) :
+    decoderKwargs (.str "BP-OSD") m a b cu =
+      [("max_bp_iter", m), ("osd_order", JV.i 0),
+       ("channel_update", .bool (truthy (cu.getD (.bool false))))] ∧
+    decoderKwargs (.str "MBP") m a b cu = [("max_bp_iter", m), ("alpha", a), ("beta", b)] ∧
+    (∀ v, (∀ s, v = .str s → s ≠ "BP-OSD" ∧ s ≠ "MBP") → decoderKwargs v m a b cu = []) := by
   refine ⟨rfl, rfl, ?_⟩
   intro v hv
   unfold decoderKwargs inNames isStr
@@ -342,9 +348,19 @@ theorem decoder_kwargs_rule (m a b : JV) :
     simp [e1, e2, h1, h2]
   | _ => rfl
 
+/-- the box of the menu reaches the BP-OSD decoder: ticked (`true`) → `channel_update=True`,
+    unticked or absent → `False` -/
+theorem channel_update_reaches_bposd (m a b : JV) :
+    (decoderKwargs (.str "BP-OSD") m a b (some (.bool true))).find? (·.1 == "channel_update") =
+      some ("channel_update", .bool true) ∧
+    (decoderKwargs (.str "BP-OSD") m a b (some (.bool false))).find? (·.1 == "channel_update") =
+      some ("channel_update", .bool false) ∧
+    (decoderKwargs (.str "BP-OSD") m a b none).find? (·.1 == "channel_update") =
+      some ("channel_update", .bool false) := ⟨rfl, rfl, rfl⟩
+
 /-! ### the answer depends on the fields read only -/
 
-/-- `/decode` reads the thirteen fields of `decodeFieldsRead` and nothing else: two requests that
+/-- `/decode` reads the fourteen fields of `decodeFieldsRead` and nothing else: two requests that
     agree on them get the same answer (same constructor calls, same error) from any library -/
 theorem decode_reads_only (L : Library Code EM Dec) (codes : List CodeMenu)
     (decs : List DecoderMenu) (dirs : List (String × Dir)) (r1 r2 : Req)
@@ -354,7 +370,8 @@ theorem decode_reads_only (L : Library Code EM Dec) (codes : List CodeMenu)
   simp only [h "syndrome" (by decide), h "p" (by decide), h "noise_deformation_name" (by decide),
     h "max_bp_iter" (by decide), h "alpha" (by decide), h "beta" (by decide),
     h "decoder" (by decide), h "error_model" (by decide), h "Lx" (by decide), h "Ly" (by decide),
-    h "Lz" (by decide), h "code_name" (by decide), h "code_deformation_name" (by decide)]
+    h "Lz" (by decide), h "code_name" (by decide), h "code_deformation_name" (by decide),
+    h "channel_update" (by decide)]
 
 /-- `/new-errors` reads the eight fields of `newErrorsFieldsRead` and nothing else -/
 theorem new_errors_reads_only (L : Library Code EM Dec) (codes : List CodeMenu)
@@ -366,18 +383,49 @@ theorem new_errors_reads_only (L : Library Code EM Dec) (codes : List CodeMenu)
     h "error_model" (by decide), h "Lx" (by decide), h "Ly" (by decide),
     h "Lz" (by decide), h "code_name" (by decide), h "code_deformation_name" (by decide)]
 
-/-- THE DEFECT (model side): whatever value the request carries for `channel_update` — the
-    "Channel update (BP)" box of the menu — the answer of `/decode` is the same, for every library:
-    the chosen option cannot reach the decoder -/
-theorem decode_ignores_channel_update (L : Library Code EM Dec) (codes : List CodeMenu)
+/-- the glue before the repair read the thirteen fields of `oldDecodeFieldsRead` only -/
+theorem old_decode_reads_only (L : Library Code EM Dec) (codes : List CodeMenu)
+    (decs : List DecoderMenu) (dirs : List (String × Dir)) (r1 r2 : Req)
+    (h : ∀ k ∈ oldDecodeFieldsRead, getKey r1 k = getKey r2 k) :
+    oldSendCorrection L codes decs dirs r1 = oldSendCorrection L codes decs dirs r2 := by
+  unfold oldSendCorrection instantiateCode selectCode field
+  simp only [h "syndrome" (by decide), h "p" (by decide), h "noise_deformation_name" (by decide),
+    h "max_bp_iter" (by decide), h "alpha" (by decide), h "beta" (by decide),
+    h "decoder" (by decide), h "error_model" (by decide), h "Lx" (by decide), h "Ly" (by decide),
+    h "Lz" (by decide), h "code_name" (by decide), h "code_deformation_name" (by decide)]
+
+/-- THE DEFECT THAT WAS REPAIRED (regression statement about the old glue): whatever value the
+    request carried for `channel_update` — the "Channel update (BP)" box of the menu — the old answer
+    of `/decode` was the same, for every library: the chosen option could not reach the decoder -/
+theorem old_decode_ignores_channel_update (L : Library Code EM Dec) (codes : List CodeMenu)
     (decs : List DecoderMenu) (dirs : List (String × Dir)) (content : Req) (v : JV) :
-    sendCorrection L codes decs dirs (setKey content "channel_update" v) =
-      sendCorrection L codes decs dirs content := by
-  apply decode_reads_only
+    oldSendCorrection L codes decs dirs (setKey content "channel_update" v) =
+      oldSendCorrection L codes decs dirs content := by
+  apply old_decode_reads_only
   intro k hk
   apply getKey_setKey_ne
   revert k
   decide
+
+/-- the repaired route differs from the old one in the keyword arguments only, and only for
+    'BP-OSD': for every other decoder value the two routes are the same function of the request -/
+theorem repaired_agrees_off_bposd (L : Library Code EM Dec) (codes : List CodeMenu)
+    (decs : List DecoderMenu) (dirs : List (String × Dir)) (content : Req)
+    (h : ∀ v, getKey content "decoder" = some v → isStr v "BP-OSD" = false) :
+    sendCorrection L codes decs dirs content = oldSendCorrection L codes decs dirs content := by
+  unfold sendCorrection oldSendCorrection
+  cases hd : getKey content "decoder" with
+  | none =>
+    have hf : field content "decoder" = .error "KeyError" := by unfold field; rw [hd]
+    simp only [hf, err_bind]
+  | some v =>
+    have hf : field content "decoder" = .ok v := field_of_getKey hd
+    have hk : ∀ m a b cu, decoderKwargs v m a b cu = oldDecoderKwargs v m a b := by
+      intro m a b cu
+      unfold decoderKwargs oldDecoderKwargs
+      rw [h v hd]
+      rfl
+    simp only [hf, ok_bind, hk]
 
 /-! ### every menu combination (regenerated tables) -/
 
@@ -387,9 +435,9 @@ def sizeArgs (c : CodeMenu) (lx ly lz : JV) : List JV :=
 
 /-- the selection a front-end `/decode` request must produce -/
 def expectedDecodeSel (c : CodeMenu) (d : DecoderMenu) (e : String × Dir)
-    (lx ly lz p m a b syn : JV) (ndn cdn : String) : DecodeSel :=
+    (lx ly lz p m a b cu syn : JV) (ndn cdn : String) : DecodeSel :=
   ⟨⟨c.cls, sizeArgs c lx ly lz, if isStr (.str cdn) "None" then none else some (.str cdn)⟩,
-   e.2, noiseDeformation (.str ndn), d.cls, p, decoderKwargs (.str d.menuName) m a b, syn⟩
+   e.2, noiseDeformation (.str ndn), d.cls, p, decoderKwargs (.str d.menuName) m a b (some cu), syn⟩
 
 /-- for ANY menus whose names are distinct keys (as those of Python dicts are): a front-end request
     naming a menu code, a menu decoder and a menu error model selects exactly them -/
@@ -403,7 +451,7 @@ theorem select_decode_front_end (codes : List CodeMenu) (decs : List DecoderMenu
     (lx ly lz p m a b cu syn : JV) (ndn cdn : String) :
     selectDecode codes decs dirs
         (frontEndDecodeReq c.menuName lx ly lz p m a b cu syn ndn d.menuName e.1 cdn) =
-      .ok (expectedDecodeSel c d e lx ly lz p m a b syn ndn cdn) := by
+      .ok (expectedDecodeSel c d e lx ly lz p m a b cu syn ndn cdn) := by
   have hsel : selectCode codes
       (frontEndDecodeReq c.menuName lx ly lz p m a b cu syn ndn d.menuName e.1 cdn) =
       .ok ⟨c.cls, sizeArgs c lx ly lz, if isStr (.str cdn) "None" then none else some (.str cdn)⟩ := by
@@ -449,7 +497,7 @@ theorem menu_decode_selection (c : CodeMenu) (hc : c ∈ Generated.Gui.codes)
     (lx ly lz p m a b cu syn : JV) (ndn cdn : String) :
     selectDecode Generated.Gui.codes Generated.Gui.decoders Generated.GuiRoutes.noiseDirections
         (frontEndDecodeReq c.menuName lx ly lz p m a b cu syn ndn d.menuName e.1 cdn) =
-      .ok (expectedDecodeSel c d e lx ly lz p m a b syn ndn cdn) := by
+      .ok (expectedDecodeSel c d e lx ly lz p m a b cu syn ndn cdn) := by
   have h := menus_well_keyed
   unfold menusWellKeyed at h
   simp only [Bool.and_eq_true, List.all_eq_true, decide_eq_true_eq, Bool.or_eq_true, beq_iff_eq,
@@ -507,18 +555,19 @@ theorem directions_sum_to_one :
 open Generated.GuiRoutes in
 /-- the requests `main.js` builds carry every field the routes read (no `KeyError` for a front-end
     request), `frontEndDecodeReq` / `frontEndNoiseReq` have exactly the keys `main.js` writes, and
-    every field sent is read — except `channel_update` of `/decode` (see
-    `channel_update_not_forwarded`) and, for `/new-errors`, none -/
+    EVERY field sent is read (before the repair `channel_update` was the one field of `/decode` that
+    was sent and not read) -/
 theorem front_end_fields_served :
     decodeFieldsRead.all decodeFieldsSent.contains = true ∧
     newErrorsFieldsRead.all newErrorsFieldsSent.contains = true ∧
-    decodeFieldsSent.filter (fun f => !decodeFieldsRead.contains f) = ["channel_update"] ∧
+    decodeFieldsSent.filter (fun f => !decodeFieldsRead.contains f) = [] ∧
     newErrorsFieldsSent.filter (fun f => !newErrorsFieldsRead.contains f) = [] ∧
+    decodeFieldsSent.filter (fun f => !oldDecodeFieldsRead.contains f) = ["channel_update"] ∧
     (∀ n lx ly lz p m a b cu syn ndn dec em cdn,
       (frontEndDecodeReq n lx ly lz p m a b cu syn ndn dec em cdn).map (·.1) = decodeFieldsSent) ∧
     (∀ n lx ly lz p ndn em cdn,
       (frontEndNoiseReq n lx ly lz p ndn em cdn).map (·.1) = newErrorsFieldsSent) := by
-  refine ⟨by decide, by decide, by decide, by decide, ?_, ?_⟩
+  refine ⟨by decide, by decide, by decide, by decide, by decide, ?_, ?_⟩
   · intros; rfl
   · intros; rfl
 
@@ -528,30 +577,35 @@ def ctorParams (name : String) : List String :=
 
 /-- THE OPTIONS REACH THE DECODERS: on the regenerated menu and constructor signatures, for every
     menu decoder (a) every keyword argument the route passes is a parameter of its constructor (no
-    `TypeError`), and (b) each of the options `max_bp_iter`, `alpha`, `beta` of the menu's decoder
-    folder is forwarded to exactly the decoders whose constructor has a parameter of that name -/
+    `TypeError`), and (b) EVERY option control of the menu's decoder folder (`max_bp_iter`,
+    `channel_update`, `alpha`, `beta`: all controls but the decoder selector itself) is forwarded to
+    exactly the decoders whose constructor has a parameter of that name -/
 theorem options_forwarded :
     Generated.Gui.decoders.all (fun d =>
-      ((decoderKwargs (.str d.menuName) .null .null .null).map (·.1)).all
+      ((decoderKwargs (.str d.menuName) .null .null .null none).map (·.1)).all
           (ctorParams d.menuName).contains &&
-      ["max_bp_iter", "alpha", "beta"].all fun o =>
+      (Generated.GuiRoutes.decoderFolderOptions.filter (· != "decoder")).all fun o =>
         (ctorParams d.menuName).contains o == (forwardedOptions d.menuName).contains o) = true := by
   decide
 
-/-- THE DEFECT, on the current source: "Channel update (BP)" is a control of the menu's decoder
-    folder, `main.js` sends it to `/decode` as `channel_update`, it IS a parameter of the constructor
-    of the 'BP-OSD' decoder — and the route neither reads nor forwards it (so the decoder always runs
-    with the default `channel_update=False`; with `decode_ignores_channel_update`: ticking the box
-    cannot change the answer, although the library decoder's answer does change).  Every other
-    control of the folder is read.  [If `_gui.py` is repaired this theorem no longer holds: replace it
-    by the positive statement.] -/
-theorem channel_update_not_forwarded :
+/-- every control of the decoder folder is a request field the route reads -/
+theorem decoder_options_read :
+    Generated.GuiRoutes.decoderFolderOptions.all decodeFieldsRead.contains = true := by decide
+
+/-- THE DEFECT THAT WAS REPAIRED, regression statement on the regenerated tables: "Channel update
+    (BP)" is a control of the menu's decoder folder, `main.js` sends it to `/decode` as
+    `channel_update`, it IS a parameter of the constructor of the 'BP-OSD' decoder — and the OLD glue
+    neither read nor forwarded it (the decoder always ran with the default `channel_update=False`;
+    with `old_decode_ignores_channel_update`: ticking the box could not change the answer, although
+    the library decoder's answer does change).  It was the only such control. -/
+theorem old_channel_update_not_forwarded :
     "channel_update" ∈ Generated.GuiRoutes.decoderFolderOptions ∧
     "channel_update" ∈ Generated.GuiRoutes.decodeFieldsSent ∧
     "channel_update" ∈ ctorParams "BP-OSD" ∧
-    "channel_update" ∉ decodeFieldsRead ∧
-    "channel_update" ∉ forwardedOptions "BP-OSD" ∧
-    Generated.GuiRoutes.decoderFolderOptions.filter (fun o => !decodeFieldsRead.contains o) =
+    "channel_update" ∉ oldDecodeFieldsRead ∧
+    "channel_update" ∉ oldForwardedOptions "BP-OSD" ∧
+    "channel_update" ∈ forwardedOptions "BP-OSD" ∧
+    Generated.GuiRoutes.decoderFolderOptions.filter (fun o => !oldDecodeFieldsRead.contains o) =
       ["channel_update"] := by
   decide
 
@@ -606,7 +660,8 @@ example :
         (JV.i 0) (.bool true) (JV.ints [0, 1]) "None" "BP-OSD" "Depolarizing" "XZZX") =
     .ok ⟨⟨"Toric2DCode", [JV.i 3, JV.i 4], some (.str "XZZX")⟩, (1/3, 1/3, 1/3), .null,
          "BeliefPropagationOSDDecoder", JV.d 1 1,
-         [("max_bp_iter", JV.i 20), ("osd_order", JV.i 0)], JV.ints [0, 1]⟩ :=
+         [("max_bp_iter", JV.i 20), ("osd_order", JV.i 0), ("channel_update", .bool true)],
+         JV.ints [0, 1]⟩ :=
   menu_decode_selection ⟨"Toric 2D", "Toric2DCode", 2, ["XZZX", "XY"], ["face", "vertex"]⟩
     (by decide) ⟨"BP-OSD", "BeliefPropagationOSDDecoder", none⟩ (by decide)
     ("Depolarizing", (1/3, 1/3, 1/3)) (by decide +kernel) ..
